@@ -481,6 +481,13 @@ class Interp(CallMixin):
                     self.assign(item.optional_vars, v if isinstance(v, Opaque) else Opaque("with"), frame)
             self.exec_block(st.body, frame)
             return
+        if isinstance(st, ast.Match):
+            subject = self.eval(st.subject, frame)
+            for case in st.cases:
+                if self.match_pattern(case.pattern, subject, frame) and (case.guard is None or self.truth(self.eval(case.guard, frame))):
+                    self.exec_block(case.body, frame)
+                    return
+            return
         if isinstance(st, ast.Global) or isinstance(st, ast.Nonlocal):
             self.unsupported(st, frame)
         if isinstance(st, ast.Delete):
@@ -495,6 +502,41 @@ class Interp(CallMixin):
                     self.unsupported(st, frame)
             return
         self.unsupported(st, frame)
+
+    def match_pattern(self, pat: ast.pattern, subject: Any, frame: Frame) -> bool:
+        if isinstance(pat, ast.MatchValue):
+            return self.eq(subject, self.eval(pat.value, frame))
+        if isinstance(pat, ast.MatchSingleton):
+            return self.identical(subject, pat.value)
+        if isinstance(pat, ast.MatchOr):
+            return any(self.match_pattern(p, subject, frame) for p in pat.patterns)
+        if isinstance(pat, ast.MatchAs):
+            if pat.pattern is not None and not self.match_pattern(pat.pattern, subject, frame):
+                return False
+            if pat.name is not None:
+                frame.vars[pat.name] = subject
+            return True
+        if isinstance(pat, ast.MatchClass):
+            cls = self.eval(pat.cls, frame)
+            if not self.isinstance_(subject, cls, pat, frame):
+                return False
+            if pat.patterns:
+                raise Unsupported("positional sub-patterns in a class pattern")
+            for name, sub in zip(pat.kwd_attrs, pat.kwd_patterns):
+                try:
+                    val = self.getattr(subject, name, pat, frame)
+                except PyRaise:
+                    return False
+                if not self.match_pattern(sub, val, frame):
+                    return False
+            return True
+        if isinstance(pat, ast.MatchSequence):
+            if not isinstance(subject, (list, tuple)) or any(isinstance(p, ast.MatchStar) for p in pat.patterns) or len(subject) != len(pat.patterns):
+                if isinstance(subject, (list, tuple)) and any(isinstance(p, ast.MatchStar) for p in pat.patterns):
+                    raise Unsupported("star pattern")
+                return False
+            return all(self.match_pattern(p, v, frame) for p, v in zip(pat.patterns, subject))
+        raise Unsupported(f"match pattern {type(pat).__name__}")
 
     @staticmethod
     def _as_load(target: ast.expr) -> ast.expr:
